@@ -576,6 +576,9 @@ func runC11(c hx.Case) any {
 	if c11IsHistory(c) {
 		return runC11History(c)
 	}
+	if c11IsReader(c) {
+		return runC11Reader(c)
+	}
 	g, _ := c["g"].(map[string]any)
 	files := jlist(g["files"])
 	bodies := map[string][]byte{}
@@ -714,6 +717,9 @@ func cmpC11(c hx.Case, impl any, reply map[string]any) hx.Verdict {
 	}
 	if c11IsHistory(c) {
 		return cmpC11History(c, im, model, spec)
+	}
+	if c11IsReader(c) {
+		return cmpC11Reader(c, im, model, spec)
 	}
 	v := hx.Verdict{IM: true, IS: true}
 	ilog, mlog := toStrs(im["log"]), toStrs(model["log"])
@@ -1403,6 +1409,8 @@ func genC11(ctx *hx.Ctx, emit func(hx.Case)) {
 			}
 		}
 	}
+	c11GenReaders(ctx, emit)
+	c11GenRootNames(ctx, emit)
 	c11GenChains(ctx, emit)
 	c11GenRootChains(ctx, emit)
 	c11GenRereads(ctx, emit)
@@ -1611,6 +1619,9 @@ func c11GenOtherKind(ctx *hx.Ctx, emit func(hx.Case)) {
 func shrinkC11(c hx.Case) []hx.Case {
 	if c11IsHistory(c) {
 		return shrinkC11History(c)
+	}
+	if c11IsReader(c) {
+		return nil
 	}
 	var out []hx.Case
 	g0, _ := c["g"].(map[string]any)
